@@ -13,7 +13,7 @@ import (
 func c09Sweep(t *testing.T, st *Stats) {
 	spec := MakeSpec(2, 1, true, 0, "0")
 	F, S := []byte("FNG-a1b2c3"), []byte("SFT-0a0b0c")
-	sys := vmcommon.ESDTSCAddress
+	sys := refESDTSC
 	known := LoadKnown("C09")
 	senders := map[string][]byte{"user": spec.Users[0], "contract": spec.Contracts[0].Addr}
 	dests := map[string]map[string][]byte{
